@@ -542,3 +542,52 @@ def run(ck, prog):
     _run_pre_stride(ck, prog)
     from sa import stride
     stride.run_rule(ck, prog, set(DIMENSION_FILES))
+
+
+# ------------------------------------------------------------------ F-beta: an undefined precision / recall (0/0) is tested before it enters the quotient
+_run_pre_fbeta_nan = run
+
+
+def fbeta_undefined_inputs(ck, prog):
+    """Precision is tp / (tp + fp) and recall tp / (tp + fn): with no predicted positive (or no actual positive) one of
+    them is 0/0 = NaN although the confusion counts give a defined F-beta of 0 (tp = 0, the other count > 0).  NaN passes
+    every `== 0` test, so each of the two results is looked at with is_nan() (or the score is computed from the counts
+    directly, without calling Precision / Recall) before it takes part in arithmetic."""
+    rule, inst = "E2-guarded-division", "F1::get_score: precision and recall are tested for NaN (0/0) before they enter the quotient"
+    try:
+        b = prog.one(r"^metrics::f1::F1::<T>::get_score$")
+    except AnchorError as e:
+        ck.violation(rule, inst, "F1::get_score", "", expected="anchor exists", found=f"anchor vanished: {e}")
+        return
+    from sa.prov import Resolver, subterms, render
+    res = Resolver(b)
+    srcs = {}
+    for bb, t in b.calls():
+        f = t.get("f")
+        if f and f["path"].endswith(("Precision::get_score", "Recall::get_score")):
+            srcs[f["path"].split("::")[-2]] = bb
+    if not srcs:
+        ck.note(f"{inst}: F-beta does not call Precision / Recall (computed from the counts): no instance")
+        return
+    tested = set()
+    for bb, t in b.calls():
+        f = t.get("f")
+        if f and f["path"].split("::")[-1] == "is_nan" and t["args"]:
+            a = res.operand(t["args"][0])
+            for s in subterms(a):
+                if s[0] == "call" and s[1].endswith(("Precision::get_score", "Recall::get_score")):
+                    tested.add(s[1].split("::")[-2])
+    missing = sorted(set(srcs) - tested)
+    if missing:
+        ck.violation(rule, inst, b.path, b.where(srcs[missing[0]]), expected="is_nan() of each of the two results before the harmonic mean",
+                     found=f"{' and '.join(missing)} can be 0/0 = NaN (no predicted / no actual positive) and flow(s) into the quotient untested: F-beta is NaN where the counts give 0")
+    else:
+        ck.ok(rule, inst, b.path, b.where(srcs[sorted(srcs)[0]]), f"is_nan() applied to {sorted(tested)}")
+
+
+def run(ck, prog):
+    _run_pre_fbeta_nan(ck, prog)
+    fbeta_undefined_inputs(ck, prog)
+
+
+EXPLANATION += " F-beta: both the precision and the recall result are tested with is_nan() (found and fixed: NaN when nothing is predicted positive)."
